@@ -135,7 +135,7 @@ def cases(tier, rng):
     # a join ABANDONED while the new peer is being told the subscriptions (connect() dropped by a timeout; the handshake task
     # dropped with its listener): the peer must not stay behind half-told — the connection goes away (both halves
     # released) and later changes are not routed to it
-    for cut in (0, 1, 3, 4):
+    for cut in (0, 1, 3):          # (the announcement of a 1-byte topic is 4 bytes: 4 would let the join complete)
         for nsubs in (1, 2):
             sc = wg.Script()
             sc.sock(1, "SUB")
@@ -256,6 +256,8 @@ def oracle(case, lines):
 
 
 def nontrivial(case, lines):
+    if case.expect is not None and case.expect[0] == "abandoned-join":
+        return any(l == "halves r=1 w=1" for l in lines)
     return case.expect is not None and len(case.expect[2]) >= 2 and len(case.expect[1]) >= 1
 
 
